@@ -608,10 +608,12 @@ def _operator_to_blockseries(rep: Report, repo: Repo, R: str):
         for N in (2, 3):
             for a in range(N):
                 for b in range(N):
-                    sub = {"index[0]": a, "index[1]": b, "implicit": implicit, "hermitian": False, "n_blocks": N}
+                    sub = {"index[0]": a, "index[1]": b, "implicit": implicit, "hermitian": False}
                     for k, v in outer_env.items():
-                        if k == "n_blocks":
+                        # the number of blocks, whatever the local is called: a local that is the length of a projector family
+                        if isinstance(v, ast.Call) and call_name(v) == "len" and len(v.args) == 1:
                             sub[norm(v)] = N
+                            sub[k] = N
                     atom = lambda n, sub=sub: _const_eval(n, sub)
                     for o in outcomes(ev.body, scope, env={}, atom=atom, expand=False):
                         if o.kind != "return":
@@ -673,9 +675,11 @@ def _operator_to_blockseries(rep: Report, repo: Repo, R: str):
             return
         raise AnalysisError(R, f"op_eval uses several projector families {sorted(fam)}")
     LP, RP = next(iter(fam))
-    nb = outer_env.get("n_blocks")
-    rep.check(nb is not None and norm(nb) in (f"len({RP})", f"len({LP})"), R, "operator_to_BlockSeries number of blocks = number of projectors",
-              norm(nb) if nb is not None else "n_blocks not a straight-line local", loc(f))
+    nbs = [v_ for v_ in outer_env.values() if isinstance(v_, ast.Call) and call_name(v_) == "len" and len(v_.args) == 1]
+    if not nbs:
+        raise AnalysisError(R, "operator_to_BlockSeries: the number of blocks is not a straight-line local of the form len(<projectors>)")
+    rep.check(all(norm(nb) in (f"len({RP})", f"len({LP})") for nb in nbs), R, "operator_to_BlockSeries number of blocks = number of projectors",
+              str([norm(nb) for nb in nbs]), loc(f))
     # -- the two families -------------------------------------------------------------------------------------------
     un = [s for s in own_nodes(f) if isinstance(s, ast.Assign) and isinstance(s.targets[0], ast.Tuple)
           and isinstance(s.value, ast.Call) and call_name(s.value) == "_normalize_subspace_eigenvectors"]
